@@ -302,7 +302,10 @@ def vocabulary(cx):
 
             def t_mpo(label=label, params=params, tq=tq, cq=cq, L=L):
                 g = qtn.Gate(label, params, qubits=tq, controls=cq if cq else None)
-                mpo = g.build_mpo(L)
+                # from_dense splits with the default cutoff 1e-10 (relative squared weight): its result is only promised to
+                # sqrt(1e-10) ~ 1e-5 of the operator norm; the exactness claim (1e-10) is checked with cutoff=0
+                mpo = g.build_mpo(L, cutoff=0.0)
+                mpo_default = g.build_mpo(L)
                 U = arr()
                 support = sorted(tq + cq)
                 # dense of the MPO on its support, through the reference: apply to basis states
@@ -312,7 +315,13 @@ def vocabulary(cx):
                     return f"dense shape {got.shape} != {(D, D)} for support {support}"
                 basis = np.eye(D, dtype=complex).reshape((2,) * len(support) + (D,))
                 want = apply_dense(basis, U, [support.index(q) for q in tq], [support.index(q) for q in cq]).reshape(D, D)
-                return close(got, want, 1e-10, "sub-MPO of the gate")
+                e = close(got, want, 1e-10, "sub-MPO of the gate (cutoff=0)")
+                if e:
+                    return e
+                got_d = np.asarray(mpo_default.to_dense(), dtype=complex)
+                if got_d.shape != (D, D):
+                    return f"dense shape {got_d.shape} != {(D, D)} for support {support} (default cutoff)"
+                return close(got_d, want, 3e-5 * max(1.0, float(np.linalg.norm(want))), "sub-MPO of the gate (default cutoff 1e-10)")
 
             cx.check("Gate.build_mpo equals the (controlled) gate matrix on its support", dict(p, targets=str(tq), controls=str(cq)),
                      t_mpo, allow_reject=label in ("SWAP", "IDEN"))
